@@ -73,6 +73,11 @@ def member? : Sexp → Option Member
       | .list [p, .list [a, ro]] => do pure ({ p := ← param? p, prop := some (← access? a, ← bool? ro) } : CtorParam)
       | _ => none
     pure (.ctor (← access? a) ps (← bool? b) (← bool? sup))
+  | .list [.atom "accessor", n, a, st, t, i] => do
+    let init ← match i with
+      | .atom "-" => some none
+      | x => (expr? x).map some
+    pure (.accessor (← str? n) (← access? a) (← bool? st) (← optStr? t) init)
   | .atom "esprivate" => some .esPrivate
   | .atom "staticblock" => some .staticBlock
   | _ => none
